@@ -200,7 +200,8 @@ def run(ctx, n=None, module_gate_only=False):
         materialize(tree, d, rng if directed_pkgs is None and directed_nested is None else random_no_links())
         dirs = [p for p in all_dirs(tree)]
         roots = [()] if (rng.random() < 0.5 or directed_pkgs) else [rng.choice(dirs) for _ in range(rng.choice([1, 2, 3]))]
-        if rng.random() < 0.2:
+        single_path = directed_pkgs is not None and idx % 2 == 0     # exactly one search path, given once
+        if rng.random() < 0.2 and not single_path:
             roots.append(roots[0])
         if directed_nested is not None:
             # (entries at odd positions are given with --test-path and come first in options.test_path: both spellings
@@ -222,7 +223,7 @@ def run(ctx, n=None, module_gate_only=False):
             args += ["--package-path", d, pkg]
             roots.append(pr_)
             roots_pkgs.append(pkg.split("."))
-        elif rng.random() < 0.3:
+        elif rng.random() < 0.3 and not single_path:
             # one more search path that maps a directory into a package
             pr_ = rng.choice(dirs)
             pkg = rng.choice(["c14ns", "c14ns.sub", "tests", "pkg"])
@@ -318,8 +319,10 @@ def run(ctx, n=None, module_gate_only=False):
                     e = json.loads(line)
                     imported.append((e["m"], os.path.relpath(e["file"], d)))
         names = sorted(all_names(tree) | {os.path.basename(d)} | {c for r in roots for c in r})
-        tp = options.tests_pattern
-        tfp = options.test_file_pattern
+        # the two patterns as the statement reads them: regular expressions searched in the name (the defaults are
+        # anchored: '^tests$', '^test') - evaluated here, not by the predicates the options object carries
+        tp = re.compile(tpat if tpat else "^tests$").search
+        tfp = re.compile(tfpat if tfpat else "^test").search
         stems = set()
         for nm in names:
             stems.add(nm)
@@ -343,7 +346,7 @@ def run(ctx, n=None, module_gate_only=False):
              "ignoreFolders": [enc(s) for s in (".git", "node_modules", "__pycache__")],
              "usecompiled": usec, "acceptedModules": [],
              "packageDirs": None if pkg_dirs is None else [[enc(c) for c in base_path + list(pd_)] for pd_ in pkg_dirs]}
-        infos.append((tree, roots, args[1:], real_files, imported, d, base_path, options, acc, usec,
+        infos.append((tree, roots, args[1:], real_files, imported, d, base_path, (options, tp, tfp), acc, usec,
                       failed_imports if imported is not None else None, pkg_dirs))
         queries.append(q)
         shutil.rmtree(d, ignore_errors=True)
@@ -355,7 +358,7 @@ def run(ctx, n=None, module_gate_only=False):
         mods = [m for cs in ans.get("candidates", []) for m in cs]
         q["acceptedModules"] = [m for m in mods if acc(".".join("".join(chr(c) for c in comp) for comp in m))]
     answers = ctx.driver.batch(queries)
-    for (tree, roots, args, real_files, imported, d, base_path, options, acc, usec, failed_imports, pkg_dirs), ans in zip(infos, answers):
+    for (tree, roots, args, real_files, imported, d, base_path, (options, info_tp, info_tfp), acc, usec, failed_imports, pkg_dirs), ans in zip(infos, answers):
         case = {"tree": tree, "roots": ["/".join(r) for r in roots], "args": [a.replace(d, "<root>") for a in args],
                 "real_files": real_files, "imported": imported, "model": ans,
                 "package_dirs": None if pkg_dirs is None else ["/".join(p_) for p_ in pkg_dirs]}
@@ -369,7 +372,7 @@ def run(ctx, n=None, module_gate_only=False):
             ctx.bump("package-path")
         # ---- monitor: the statement
         given_ig = [args[k_ + 1] for k_, a_ in enumerate(args) if a_ == "--ignore_dir"]
-        env = {"tp": options.tests_pattern, "tfp": options.test_file_pattern,
+        env = {"tp": info_tp, "tfp": info_tfp,
                "ignore": {".git", ".svn", "CVS", "{arch}", ".arch-ids", "_darcs"} | set(given_ig), "usecompiled": usec}
         want = []
         if pkg_dirs is None:
